@@ -189,3 +189,303 @@ Proof.
   intros Hk. destruct (index_of_In _ _ Hk) as [klen Hk'].
   rewrite (needle_of_glob _ _ Hk'). apply (glob_only_git key klen (mk_item name t o) Hk').
 Qed.
+
+(* ---- matching never panics -------------------------------------------------------------------- *)
+
+(* what fetch-spec parsing guarantees and matching needs: source and destination both have a '*' or neither *)
+Definition wf_spec (s : rspec) : Prop :=
+  match ssrc s, sdst s with
+  | Some a, Some d => has_star a = has_star d
+  | _, _ => True
+  end.
+
+Definition is_glob (n : needle) : bool := match n with Glob _ _ => true | _ => false end.
+Definition glob_ok (n : needle) : Prop :=
+  match n with Glob name p => index_of x2a name = Some p | _ => True end.
+
+Lemma needle_of_is_glob v : is_glob (needle_of v) = has_star v.
+Proof.
+  unfold has_star. destruct (index_of x2a v) eqn:E.
+  - rewrite (needle_of_glob _ _ E). reflexivity.
+  - destruct (needle_of_noglob _ E) as [H|[H|[id H]]]; rewrite H; reflexivity.
+Qed.
+
+Lemma needle_of_glob_ok v : glob_ok (needle_of v).
+Proof.
+  destruct (index_of x2a v) eqn:E.
+  - rewrite (needle_of_glob _ _ E). exact E.
+  - destruct (needle_of_noglob _ E) as [H|[H|[id H]]]; rewrite H; exact I.
+Qed.
+
+Lemma to_bstr_total n : is_glob n = false -> exists b, to_bstr n = Ok b.
+Proof. destruct n; cbn; intros H; try discriminate; eexists; reflexivity. Qed.
+
+Lemma needle_matches_noglob n it : is_glob n = false ->
+  needle_matches n it = Ok MNone \/ needle_matches n it = Ok MNormal.
+Proof.
+  destruct n as [name|name|name p|id]; cbn [is_glob]; intros H; try discriminate; unfold needle_matches.
+  - destruct (bytes_eqb name (iname it)); auto.
+  - destruct (expand_partial_name name _) as [m|] eqn:E; auto.
+    unfold expand_partial_name in E.
+    assert (G : forall l, find_map (fun e => if bytes_eqb e (iname it) then Some MNormal else None) l = Some m ->
+                          m = MNormal).
+    { induction l as [|x l IH]; cbn [find_map]; intros H0; [discriminate|].
+      destruct (bytes_eqb x (iname it)); [injection H0 as <-; reflexivity|auto]. }
+    rewrite (G _ E). auto.
+  - destruct (bytes_eqb id (itarget it)); auto. destruct (iobject it) as [o|]; auto.
+    destruct (bytes_eqb o id); auto.
+Qed.
+
+Definition wf_matcher (m : matcher) : Prop :=
+  match lhs m, rhs m with
+  | Some l, Some d => is_glob l = is_glob d /\ glob_ok l /\ glob_ok d
+  | Some l, None => glob_ok l
+  | None, _ => True
+  end.
+
+Lemma wf_matcher_of s : wf_spec s -> wf_matcher (matcher_of s).
+Proof.
+  unfold wf_spec, wf_matcher, matcher_of. cbn [lhs rhs].
+  destruct (ssrc s) as [a|], (sdst s) as [d|]; cbn [option_map]; intros H; auto.
+  - rewrite !needle_of_is_glob. auto using needle_of_glob_ok.
+  - apply needle_of_glob_ok.
+Qed.
+
+Lemma matches_lhs_total m it : wf_matcher m -> exists r, matches_lhs m it = Ok r.
+Proof.
+  unfold wf_matcher, matches_lhs. destruct (lhs m) as [l|]; [|eexists; reflexivity].
+  destruct (rhs m) as [d|].
+  - intros (Hg & Hl & Hd). destruct l as [n|n|key klen|id].
+    1,2,4: (match goal with |- context [needle_matches ?l ?i] => destruct (needle_matches_noglob l i eq_refl) as [E|E] end;
+            [ rewrite E; cbn [obind into_match_outcome]; eexists; reflexivity
+            | rewrite E; cbn [obind into_match_outcome];
+              destruct (to_bstr_total d (eq_sym Hg)) as [b Hb]; unfold to_bstr in Hb; rewrite Hb;
+              cbn [obind]; eexists; reflexivity ]).
+    destruct d as [n|n|v vlen|id]; cbn [is_glob] in Hg; try discriminate.
+    cbn [glob_ok] in Hl, Hd.
+    pose proof (glob_replace_git key klen v vlen it Hl Hd) as G. unfold matches_lhs in G. cbn [lhs rhs] in G.
+    rewrite G. eexists; reflexivity.
+  - intros Hl. destruct l as [n|n|key klen|id].
+    1,2,4: (match goal with |- context [needle_matches ?l ?i] => destruct (needle_matches_noglob l i eq_refl) as [E|E] end;
+            rewrite E; cbn [obind]; eexists; reflexivity).
+    cbn [glob_ok] in Hl. rewrite (glob_matches_git _ _ it Hl). cbn [obind]. eexists; reflexivity.
+Qed.
+
+(* the matcher list computed by the first pass *)
+Definition matcher_slot (s : rspec) : option matcher :=
+  match lhs (matcher_of s) with
+  | Some (Object _) => None
+  | _ => Some (matcher_of s)
+  end.
+
+Lemma rhs_noglob_of_lhs_noglob s : wf_spec s -> forall l, lhs (matcher_of s) = Some l -> is_glob l = false ->
+  match rhs (matcher_of s) with Some d => is_glob d = false | None => True end.
+Proof.
+  intros W l Hl Hg. apply wf_matcher_of in W. unfold wf_matcher in W. rewrite Hl in W.
+  destruct (rhs (matcher_of s)) as [d|]; [|exact I]. destruct W as (E & _). congruence.
+Qed.
+
+Lemma rhs_to_bstr_total s : wf_spec s -> forall l, lhs (matcher_of s) = Some l -> is_glob l = false ->
+  exists r, match rhs (matcher_of s) with
+            | Some d => (b <- to_bstr d ;; Ok (Some b))%outcome
+            | None => Ok None
+            end = (Ok r : outcome (option bytes) unit).
+Proof.
+  intros W l Hl Hg. pose proof (rhs_noglob_of_lhs_noglob s W l Hl Hg) as H.
+  destruct (rhs (matcher_of s)) as [d|]; [|eexists; reflexivity].
+  destruct (to_bstr_total d H) as [b Hb]. rewrite Hb. cbn [obind]. eexists; reflexivity.
+Qed.
+
+Lemma object_pass_total specs : Forall wf_spec specs -> forall idx out,
+  exists out', object_pass specs idx out = Ok (out', map matcher_slot specs).
+Proof.
+  induction 1 as [|s specs W _ IH]; intros idx out; cbn [object_pass map]; [eexists; reflexivity|].
+  unfold matcher_slot at 1.
+  destruct (lhs (matcher_of s)) as [[n|n|n p|id]|] eqn:El.
+  1,2,3,5: (destruct (IH (S idx) out) as [o' ->]; cbn [obind]; eexists; reflexivity).
+  destruct (rhs_to_bstr_total s W _ El eq_refl) as [r ->]. cbn [obind].
+  destruct (IH (S idx) (push_unique out {| item_index := None; mlhs := SObjectId id; mrhs := r; spec_index := idx |}))
+    as [o' ->].
+  cbn [obind]. eexists; reflexivity.
+Qed.
+
+Lemma match_items_total m sidx : wf_matcher m -> forall its out, exists out', match_items m sidx its out = Ok out'.
+Proof.
+  intros W. induction its as [|[i it] its IH]; intros out; cbn [match_items]; [eexists; reflexivity|].
+  destruct (matches_lhs_total m it W) as [[matched d] ->]. cbn [obind]. apply IH.
+Qed.
+
+Lemma positive_pass_total items specs : Forall wf_spec specs -> forall sidx out,
+  exists out', positive_pass specs (map matcher_slot specs) sidx items out = Ok out'.
+Proof.
+  induction 1 as [|s specs W _ IH]; intros sidx out; cbn [positive_pass map]; [eexists; reflexivity|].
+  destruct (is_negative s); [apply IH|].
+  unfold matcher_slot at 1.
+  destruct (lhs (matcher_of s)) as [[n|n|n p|id]|] eqn:El; cbn [lhs]; rewrite ?El.
+  - destruct (expand_partial_name n _) as [[i it]|]; [|apply IH].
+    destruct (rhs_to_bstr_total s W _ El eq_refl) as [r ->]. cbn [obind]. apply IH.
+  - destruct (expand_partial_name n _) as [[i it]|]; [|apply IH].
+    destruct (rhs_to_bstr_total s W _ El eq_refl) as [r ->]. cbn [obind]. apply IH.
+  - destruct (match_items_total (matcher_of s) sidx (wf_matcher_of s W) (enumerate 0 items) out) as [o' ->].
+    cbn [obind]. apply IH.
+  - apply IH.
+  - destruct (match_items_total (matcher_of s) sidx (wf_matcher_of s W) (enumerate 0 items) out) as [o' ->].
+    cbn [obind]. apply IH.
+Qed.
+
+Lemma retain_total m : wf_matcher m -> forall out, exists out', retain_not_matching m out = Ok out'.
+Proof.
+  intros W. induction out as [|x out [o' IH]]; cbn [retain_not_matching]; [eexists; reflexivity|].
+  destruct (mlhs x) as [name|id].
+  - destruct (lhs m) as [[n|n|n p|id]|] eqn:El.
+    2: { cbn [obind]. rewrite IH. cbn [obind]. eexists; reflexivity. }
+    all: destruct (matches_lhs_total m (null_item name) W) as [r ->]; cbn [obind]; rewrite IH; cbn [obind];
+         eexists; reflexivity.
+  - cbn [obind]. rewrite IH. cbn [obind]. eexists; reflexivity.
+Qed.
+
+Lemma negative_pass_total specs : Forall wf_spec specs -> forall out,
+  exists out', negative_pass specs (map matcher_slot specs) out = Ok out'.
+Proof.
+  induction 1 as [|s specs W _ IH]; intros out; cbn [negative_pass map]; [eexists; reflexivity|].
+  unfold matcher_slot at 1.
+  destruct (lhs (matcher_of s)) as [[n|n|n p|id]|] eqn:El.
+  4: apply IH.
+  all: destruct (is_negative s); [|apply IH];
+       destruct (retain_total (matcher_of s) (wf_matcher_of s W) out) as [o' ->]; cbn [obind]; apply IH.
+Qed.
+
+Lemma L_match_total specs items : Forall wf_spec specs -> exists ms, match_remotes specs items = Ok ms.
+Proof.
+  intros W. unfold match_remotes.
+  destruct (object_pass_total specs W 0 []) as [o1 ->]. cbn [obind].
+  destruct (positive_pass_total items specs W 0 o1) as [o2 ->]. cbn [obind].
+  destruct (existsb is_negative specs && negb (Nat.eqb (length items) 0)).
+  - apply negative_pass_total. exact W.
+  - eexists; reflexivity.
+Qed.
+
+(* ---- parsing establishes the balance of patterns ---------------------------------------------- *)
+
+Lemma count_byte_index_of b s :
+  (count_byte b s = 0%nat <-> index_of b s = None).
+Proof.
+  unfold count_byte. induction s as [|x s IH]; cbn [filter index_of length]; [tauto|].
+  destruct (beqb x b); cbn [length].
+  - split; intros H; discriminate.
+  - destruct (index_of b s); split; intros H; try discriminate; try reflexivity.
+    + apply IH in H. discriminate.
+    + apply IH. reflexivity.
+Qed.
+
+Lemma validated_ok spec r pat : validated spec = Ok (r, pat) ->
+  r = spec /\ pat = match spec with Some s => has_star s | None => false end.
+Proof.
+  unfold validated. destruct spec as [s|]; [|intros H; injection H as <- <-; auto].
+  destruct (Nat.ltb 1 (count_byte c_star s)) eqn:E1; [discriminate|].
+  destruct (Nat.eqb (count_byte c_star s) 1) eqn:E2.
+  - destruct (name_partial_ok _); [|discriminate]. intros H. injection H as <- <-. split; [reflexivity|].
+    unfold has_star. destruct (index_of x2a s) eqn:E; [reflexivity|].
+    apply count_byte_index_of in E. unfold c_star in E2. rewrite E in E2. discriminate.
+  - destruct (name_partial_ok _); [|discriminate]. intros H. injection H as <- <-. split; [reflexivity|].
+    unfold has_star. destruct (index_of x2a s) eqn:E; [|reflexivity].
+    apply Nat.ltb_ge in E1. apply Nat.eqb_neq in E2.
+    assert (count_byte c_star s = 0%nat) as Z by lia. apply count_byte_index_of in Z. unfold c_star in Z. congruence.
+Qed.
+
+Lemma parse_finish_wf m src dst r :
+  (mode_eqb m Negative = true -> dst = None) -> parse_finish m src dst = Ok r -> wf_spec r.
+Proof.
+  intros Hneg. unfold parse_finish.
+  set (src' := match src with Some s => if bytes_eqb s (bs "@") then Some HEAD else Some s | None => None end).
+  destruct (validated src') as [[s1 p1]| | |] eqn:V1; cbn [obind]; try discriminate.
+  destruct (validated dst) as [[d1 p2]| | |] eqn:V2; cbn [obind]; try discriminate.
+  apply validated_ok in V1. apply validated_ok in V2. destruct V1 as [-> ->]. destruct V2 as [-> ->].
+  destruct (mode_eqb m Negative) eqn:Em; cbn [negb andb].
+  - rewrite (Hneg eq_refl). destruct src' as [s|]; [|discriminate].
+    destruct (has_star s); [discriminate|].
+    destruct (looks_like_object_hash s); [discriminate|].
+    destruct (negb (starts_with refs_prefix s) && negb (bytes_eqb s HEAD)); [discriminate|].
+    intros H. injection H as <-. unfold wf_spec. cbn [ssrc sdst]. exact I.
+  - destruct (Bool.eqb _ _) eqn:Eb; cbn [negb]; [|discriminate].
+    intros H. injection H as <-. unfold wf_spec. cbn [ssrc sdst].
+    destruct src' as [s|]; [|exact I]. destruct dst as [d|]; [|exact I].
+    apply Bool.eqb_prop in Eb. exact Eb.
+Qed.
+
+Lemma parse_split_negative spec0 m src dst :
+  parse_split spec0 = Ok (m, Some (src, dst)) -> mode_eqb m Negative = true -> dst = None.
+Proof.
+  unfold parse_split. destruct spec0 as [|c rest]; [discriminate|].
+  destruct (beqb c x5e); [|destruct (beqb c x2b)]; cbv beta iota;
+  match goal with |- context [find_byte c_colon ?sp] => destruct (find_byte c_colon sp) as [pos|]; set (spc := sp) end;
+  cbn [mode_eqb].
+  1,3,5: try discriminate;
+         destruct (non_empty (firstn pos spc)), (non_empty (skipn (S pos) spc)); intros H; inversion H; subst;
+         cbn [mode_eqb]; intros; congruence.
+  all: destruct (non_empty spc); intros H; inversion H; subst; cbn [mode_eqb]; intros; congruence.
+Qed.
+
+Lemma L_parse_wf spec r : parse_fetch spec = Ok r -> wf_spec r.
+Proof.
+  unfold parse_fetch. destruct (parse_split spec) as [[m [[src dst]|]]| | |] eqn:E; cbn [obind]; try discriminate.
+  - apply parse_finish_wf. intros Hn. eapply parse_split_negative; eassumption.
+  - intros H. injection H as <-. exact I.
+Qed.
+
+Lemma L_parse_no_panic spec : parse_fetch spec <> Panic /\ parse_fetch spec <> OutOfFuel.
+Proof.
+  assert (S : forall x, parse_split x <> Panic /\ parse_split x <> OutOfFuel).
+  { intros x. unfold parse_split. destruct x as [|c rest]; [split; discriminate|].
+    destruct (beqb c x5e); [|destruct (beqb c x2b)]; cbv beta iota;
+    match goal with |- context [find_byte c_colon ?sp] => destruct (find_byte c_colon sp) as [pos|]; set (spc := sp) end;
+    cbn [mode_eqb]; try (split; discriminate).
+    all: repeat match goal with |- context [non_empty ?x] => destruct (non_empty x) end; split; discriminate. }
+  assert (V : forall x, validated x <> Panic /\ validated x <> OutOfFuel).
+  { intros x. unfold validated. destruct x as [s|]; [|split; discriminate].
+    destruct (Nat.ltb 1 _); [split; discriminate|]. destruct (Nat.eqb _ 1); destruct (name_partial_ok _); split; discriminate. }
+  assert (F : forall m a b, parse_finish m a b <> Panic /\ parse_finish m a b <> OutOfFuel).
+  { intros m a b. unfold parse_finish.
+    set (src' := match a with Some s => if bytes_eqb s (bs "@") then Some HEAD else Some s | None => None end).
+    destruct (V src') as [V1 V2]. destruct (validated src') as [[s1 p1]| | |]; cbn [obind]; try (split; discriminate); try tauto.
+    destruct (V b) as [V3 V4]. destruct (validated b) as [[d1 p2]| | |]; cbn [obind]; try (split; discriminate); try tauto.
+    destruct (negb (mode_eqb m Negative) && negb (Bool.eqb p1 p2)); [split; discriminate|].
+    destruct (mode_eqb m Negative); [|split; discriminate].
+    destruct s1 as [s|]; [|split; discriminate].
+    destruct p1; [split; discriminate|]. destruct (looks_like_object_hash s); [split; discriminate|].
+    destruct (negb _ && negb _); split; discriminate. }
+  unfold parse_fetch. destruct (S spec) as [S1 S2].
+  destruct (parse_split spec) as [[m [[src dst]|]]| | |]; cbn [obind]; try (split; discriminate); try tauto.
+  apply F.
+Qed.
+
+Lemma parse_all_wf specs : forall i parsed, parse_all specs i = Ok parsed -> Forall wf_spec parsed.
+Proof.
+  induction specs as [|s specs IH]; intros i parsed; cbn [parse_all].
+  - intros H. injection H as <-. constructor.
+  - destruct (parse_fetch s) as [p| | |] eqn:E; try discriminate.
+    destruct (parse_all specs (S i)) as [ps| | |] eqn:E2; try discriminate.
+    intros H. injection H as <-. constructor; [eapply L_parse_wf; eassumption|eapply IH; eassumption].
+Qed.
+
+Lemma parse_all_no_panic specs : forall i, parse_all specs i <> Panic /\ parse_all specs i <> OutOfFuel.
+Proof.
+  induction specs as [|s specs IH]; intros i; cbn [parse_all]; [split; discriminate|].
+  destruct (L_parse_no_panic s) as [P1 P2].
+  destruct (parse_fetch s) as [p| | |]; try (split; discriminate); try tauto.
+  destruct (IH (S i)) as [Q1 Q2].
+  destruct (parse_all specs (S i)); try (split; discriminate); tauto.
+Qed.
+
+(* the pipeline the harness drives never panics, for all refspec texts and all remote ref names *)
+Lemma L_pipeline_total specs names :
+  (exists i e, parse_all specs 0 = Err (i, e)) \/
+  (exists parsed ms, parse_all specs 0 = Ok parsed /\ Forall wf_spec parsed /\
+                     match_remotes parsed (items_of_names 0 names) = Ok ms).
+Proof.
+  destruct (parse_all_no_panic specs 0) as [P1 P2].
+  destruct (parse_all specs 0) as [parsed|[i e]| |] eqn:E; try tauto.
+  - right. pose proof (parse_all_wf _ _ _ E) as W.
+    destruct (L_match_total parsed (items_of_names 0 names) W) as [ms H]. eauto.
+  - left. eauto.
+Qed.
